@@ -40,6 +40,9 @@ class StepClock:
         self.mon = sys.monitoring
         self.steps = 0
         self.unwinds = 0
+        self.pending_unwind = False
+        self.pending_exc = None
+        self.swallowed_by = None
         self.last_unwind = None
         self.budget = None
         self.kill_at = None
@@ -60,7 +63,21 @@ class StepClock:
             pass
         self.mon.register_callback(self.TOOL, self.mon.events.LINE, self._line)
         self.mon.register_callback(self.TOOL, self.mon.events.PY_UNWIND, self._unwind)
+        self.mon.register_callback(self.TOOL, self.mon.events.EXCEPTION_HANDLED, self._handled)
+        self.mon.register_callback(self.TOOL, self.mon.events.RERAISE, self._reraise)
         self.installed = True
+
+    def _handled(self, code, offset, exc):
+        # an exception that left a transpiled lambda / function body is caught here: remember by whom
+        # entering ANY except clause counts as "handled" for the interpreter, even one that does not match and re-raises:
+        # the candidate is withdrawn again by _reraise below
+        if exc is self.pending_exc:
+            fn = code.co_filename
+            self.swallowed_by = code.co_name if (fn.startswith(self.prefixes) or fn == "<string>") else "outside-vyxal"
+
+    def _reraise(self, code, offset, exc):
+        if exc is self.pending_exc:
+            self.swallowed_by = None
 
     def _unwind(self, code, offset, exc):
         # a frame of transpiled code (lambda / function / list item body) left by an exception
@@ -68,6 +85,8 @@ class StepClock:
         if (fn.startswith("<vy") or fn == "<string>") and code.co_name != "<module>":
             if not isinstance(exc, (StepBudgetExceeded, Killed)):
                 self.unwinds += 1
+                self.pending_unwind = True
+                self.pending_exc = exc
                 self.last_unwind = type(exc).__name__
 
     def _line(self, code, line):
@@ -98,11 +117,15 @@ class StepClock:
         self.on_kill = on_kill
         self.steps = 0
         self.unwinds = 0
+        self.pending_unwind = False
+        self.pending_exc = None
+        self.swallowed_by = None
         self.last_unwind = None
         self.budget = budget
         self.kill_at = kill_at
         self.extra_string = count_string
-        self.mon.set_events(self.TOOL, self.mon.events.LINE | self.mon.events.PY_UNWIND)
+        self.mon.set_events(self.TOOL, self.mon.events.LINE | self.mon.events.PY_UNWIND | self.mon.events.EXCEPTION_HANDLED
+                            | self.mon.events.RERAISE)
         self.active = True
 
     def stop(self):
@@ -352,12 +375,12 @@ class World:
         return m["parse"].parse(m["lexer"].tokenise(program))
 
     def compile_stmt(self, struct):
-        src = self.m["transpile"].transpile_ast([struct])
+        src = self.m["transpile"].transpile_ast([struct], dict_compress=self.ctx.dictionary_compression)
         self.nstmt += 1
         return compile(src, f"<vy:{self.nstmt}>", "exec")
 
-    def compile_program(self, program: str):
-        src = self.m["transpile"].transpile(program)
+    def compile_program(self, program: str, dict_compress: bool = True):
+        src = self.m["transpile"].transpile(program, dict_compress)
         self.nstmt += 1
         return compile(src, f"<vy:{self.nstmt}>", "exec")
 
